@@ -155,7 +155,7 @@ def replay_history(args):
             try:
                 if opr["kind"] == "kv":
                     upd = {}
-                    for k in KEYS:
+                    for k in (KEYS if not opr.get("ord") else KEYS[::-1]):
                         u = opr["upd"][k]
                         if u == -1:
                             continue
@@ -279,7 +279,7 @@ def abstract_trace(opr, events, tv0, tv, init, before, raised, step):
     start = events.index(opens[0])
     calls = events[start + 1:]
     if opr["kind"] == "kv":
-        evs.append({"ev": "kv_begin", "upd": {k: opr["upd"][k] for k in KEYS}})
+        evs.append({"ev": "kv_begin", "upd": {k: opr["upd"][k] for k in KEYS}, "ord": opr.get("ord", 0)})
         seeks = [e for e in calls if e["ev"] == "seek"]
         reads = [e for e in calls if e["ev"] == "read"]
         writes = [e for e in calls if e["ev"] == "write"]
